@@ -106,6 +106,8 @@ fn history<S: ShortGroupSignatureScheme>(em: &mut Emitter, rng: &mut Rng, suite:
     for step in 0..=n_ops {
         let last = step == n_ops;
         let mut checkpoint = last;
+        // `RevocationRegistry::add` on the public registry field: at a random step, and always before the final checkpoint
+        let mut do_registry_add = last && !holders.is_empty();
         if !last {
             let r = rng.below(100);
             let active: Vec<usize> = (0..holders.len()).filter(|i| !holders[*i].revoked).collect();
@@ -222,41 +224,44 @@ fn history<S: ShortGroupSignatureScheme>(em: &mut Emitter, rng: &mut Rng, suite:
                 }
                 trace.push(format!("reissue-attempt {}", id));
             } else if !holders.is_empty() && rng.coin() {
-                // `RevocationRegistry::add` called directly on the issuer's public registry field with a list that mixes a
-                // never-seen identifier with known ones (active and revoked): revoked identifiers must stay revoked
-                let mut list = vec![format!("ghost-{}-{}", hist, step)];
-                for h in holders.iter() {
-                    if rng.chance(2, 3) {
-                        list.push(h.id.clone());
-                    }
-                }
-                list.push(format!("ghost2-{}-{}", hist, step));
-                let value_before = issuer.revocation_registry.value;
-                let r = call(|| {
-                    issuer.revocation_registry.add(&list);
-                    Ok::<_, ()>(())
-                });
-                em.oracle_case(&format!("{} registry-add {} {}", suite, hist, step));
-                em.count("registry-add");
-                trace.push(format!("registry.add {:?}", list));
-                if r.is_panic() {
-                    em.violation("c06:registry-add-panic", format!("{}: RevocationRegistry::add panicked", suite), json!({"suite": suite, "trace": trace}));
-                }
-                if issuer.revocation_registry.value != value_before {
-                    em.violation("c06:registry-add-moves-value", format!("{}: RevocationRegistry::add changed the published value", suite), json!({"suite": suite, "trace": trace}));
-                }
-                for h in holders.iter().filter(|h| h.revoked) {
-                    let reactivated = issuer.revocation_registry.active.contains(&h.id);
-                    let refreshed = call(|| issuer.update_revocation_handle(RevocationClaim::from(h.id.as_str()))).is_ok();
-                    if reactivated || refreshed {
-                        em.violation("c06:revoked-reactivated-by-add", format!("{}: after RevocationRegistry::add with a list naming a revoked identifier that identifier is active again (active set: {}, refresh succeeds: {})", suite, reactivated, refreshed), json!({"suite": suite, "trace": trace, "id": h.id}));
-                    }
-                }
+                do_registry_add = true;
             } else if !holders.is_empty() {
                 // persist / restore the issuer
                 let txt = serde_json::to_string(&issuer).unwrap();
                 issuer = serde_json::from_str(&txt).unwrap();
                 trace.push("persist".to_string());
+            }
+        }
+        if do_registry_add {
+            // `RevocationRegistry::add` called directly on the issuer's public registry field with a list that mixes a
+            // never-seen identifier with known ones (active and revoked): revoked identifiers must stay revoked
+            let mut list = vec![format!("ghost-{}-{}", hist, step)];
+            for h in holders.iter() {
+                if rng.chance(2, 3) {
+                    list.push(h.id.clone());
+                }
+            }
+            list.push(format!("ghost2-{}-{}", hist, step));
+            let value_before = issuer.revocation_registry.value;
+            let r = call(|| {
+                issuer.revocation_registry.add(&list);
+                Ok::<_, ()>(())
+            });
+            em.oracle_case(&format!("{} registry-add {} {}", suite, hist, step));
+            em.count("registry-add");
+            trace.push(format!("registry.add {:?}", list));
+            if r.is_panic() {
+                em.violation("c06:registry-add-panic", format!("{}: RevocationRegistry::add panicked", suite), json!({"suite": suite, "trace": trace}));
+            }
+            if issuer.revocation_registry.value != value_before {
+                em.violation("c06:registry-add-moves-value", format!("{}: RevocationRegistry::add changed the published value", suite), json!({"suite": suite, "trace": trace}));
+            }
+            for h in holders.iter().filter(|h| h.revoked) {
+                let reactivated = issuer.revocation_registry.active.contains(&h.id);
+                let refreshed = call(|| issuer.update_revocation_handle(RevocationClaim::from(h.id.as_str()))).is_ok();
+                if reactivated || refreshed {
+                    em.violation("c06:revoked-reactivated-by-add", format!("{}: after RevocationRegistry::add with a list naming a revoked identifier that identifier is active again (active set: {}, refresh succeeds: {})", suite, reactivated, refreshed), json!({"suite": suite, "trace": trace, "id": h.id}));
+                }
             }
         }
         if !checkpoint || holders.is_empty() {
